@@ -275,7 +275,7 @@ def uponRoundChange (cfg : Cfg) (s : State) (m : Msg) : Step :=
   | .ok (some (justified, value)) =>
     sendOr cfg s1 .bcastProposalFailed (createProposal cfg s1 value (forRound rc s1.round) justified.rcJust) []
   | .ok none =>
-    let higher := rc.filter (fun x => decide (x.round > s1.round))
+    let higher := rc.filter (fun x => Nat.blt s1.round x.round)
     if cfg.hasPartialQuorum (signersOf higher) then
       let newRound := minRound higher
       if newRound ≤ s1.round then okStep s1 [] else uponChangeRoundPartialQuorum cfg s1 newRound
